@@ -30,7 +30,9 @@ def run(ctx):
                 hl = len(str(h))
                 for mask in masks:
                     lens = {}
-                    for kl in keylens:
+                    order = list(keylens)
+                    rng.shuffle(order)          # not ascending: state left by a longer key must not affect a shorter one
+                    for kl in order:
                         key = bytes(kl)
                         try:
                             kb = tr31.wrap(kbpk, h, key, mask)
